@@ -74,7 +74,7 @@ def _check(lib, expected, mode):
             else:
                 if e["key"] in dupfield_keys:
                     cls.add("live-after-dupfield-entry")
-                m = _entry_matches(b, e, values=(mode == "splitter"))
+                m = _entry_matches(b, e, values=(mode != "parse_string"))
                 if m:
                     return (f"live-entry:{mode}", f"block {i}: {m}", repr(splitcheck._rec(e))), cls
                 live_e[e["key"]] = b
@@ -90,7 +90,7 @@ def _check(lib, expected, mode):
                 if type(inner) is not String or inner.key != e["key"] or inner.value != e["value"]:
                     return (f"duplicate-string-content:{mode}", splitcheck.describe_block(inner), repr(splitcheck._rec(e))), cls
             else:
-                if type(b) is not String or b.key != e["key"] or (mode == "splitter" and b.value != e["value"]):
+                if type(b) is not String or b.key != e["key"] or (mode != "parse_string" and b.value != e["value"]):
                     return (f"live-string:{mode}", splitcheck.describe_block(b), repr(splitcheck._rec(e))), cls
                 live_s[e["key"]] = b
             if e["key"] in live_e or any(x["kind"] == "entry" and x["key"] == e["key"] for x in expected):
@@ -117,6 +117,22 @@ def o_deriv(deriv):
         cls |= c
         if f:
             return (f, True, sorted(cls))
+    # the same document handed over in two parts through the `library=` argument
+    items = [i for i, it in enumerate(deriv) if it["k"] != "gap"]
+    if len(items) >= 2:
+        cut = items[len(items) // 2]
+        t1, e1 = bibgen.render(deriv[:cut])
+        t2, e2 = bibgen.render(deriv[cut:])
+        if not (e1 and e2 and e1[-1]["kind"] == "icomment" and e2[0]["kind"] == "icomment"):
+            lib = Splitter(t2).split(library=Splitter(t1).split())
+            f, c = _check(lib, e1 + e2, "splitter+library")
+            cls |= c | {"two-part-parse"}
+            if f:
+                return (f, True, sorted(cls))
+            lib = bibtexparser.parse_string(t2, parse_stack=[], library=bibtexparser.parse_string(t1, parse_stack=[]))
+            f, c = _check(lib, e1 + e2, "splitter+library")
+            if f:
+                return ((f[0].replace("splitter+library", "parse_string+library"), f[1], f[2]), True, sorted(cls))
     nontrivial = bool(cls & {"entry-collision", "string-collision"}) or any(
         e["kind"] == "entry" and len({f["key"] for f in e["fields"]}) < len(e["fields"]) for e in expected
     )
@@ -187,4 +203,4 @@ def run(chk):
         "field key is a DuplicateFieldKeyBlock with exactly the repeated keys, every occurrence kept, not registered. "
         "Non-trivial: >= 1 collision of entry keys, string keys or field keys."
     )
-    chk.required_classes = ["entry-collision", "string-collision", "triple-collision", "entry/string-same-name", "dupkey+dupfield", "live-after-dupfield-entry"]
+    chk.required_classes = ["entry-collision", "string-collision", "triple-collision", "entry/string-same-name", "dupkey+dupfield", "live-after-dupfield-entry", "two-part-parse"]
